@@ -167,6 +167,15 @@ def faces_family(draw, max_calls=3):
     nf = draw(st.integers(2, 4))
     N = draw(st.integers(2, 3))
     table = draw(gen.link_tables(nf, ("X", "Y"), min_pairs=1, keep_empty=True))
+    if draw(st.integers(0, 5)) == 0:
+        # now and then an inconsistent table (one slot edited): it has to be refused - in every listing order, under every
+        # hash seed and whatever the names are
+        slots = [(f, a, k) for f in table for a in table[f] for k in (0, 1)]
+        f, a, k = draw(st.sampled_from(slots))
+        others = [None] + [[g, b, r] for g in range(nf) for b in ("X", "Y") for r in (False, True)]
+        new = draw(st.sampled_from(others))
+        if new != table[f][a][k]:
+            table[f][a][k] = new
     dims = {"XC": N, "XL": N, "YC": N, "YL": N, "FACE": nf}
     extra = draw(st.sampled_from([[], [], [["E0", 2]]]))
     for e, s in extra:
